@@ -52,6 +52,18 @@ theorem rd3_ok {β : Type} (name : String) (n m l : Nat) (f : Nat → Nat → Na
 theorem chkI_ok (w : String) (x : Int) (h1 : -2147483648 ≤ x) (h2 : x ≤ 2147483647) : chkI w x = .ok x := by
   unfold chkI inI32 INT_MIN INT_MAX; simp only [h1, h2, and_self, ↓reduceIte]; rfl
 
+theorem jrd_dynK {β : Type} (name : String) (N : Nat → Nat → Int) (E : Nat → Nat → Vec β) (i : Int) (h0 : 0 ≤ i) (h1 : i < 121) :
+    jrd name (some (jdynK N E)) i = .ok (some ⟨31, fun j => jvec (N i.toNat j) (E i.toNat j)⟩) := by
+  unfold jdynK; exact jrd_vec name _ _ i h0 h1
+
+theorem jrd_jvec {β : Type} (name : String) (n : Int) (v : Vec β) (i : Int) :
+    jrd name (jvec n v) i = if n ≤ 0 then Except.error (.npe name) else if 0 ≤ i ∧ i < n then Except.ok (v.get i.toNat) else Except.error (.aioobe name) := by
+  unfold jvec; split_ifs <;> simp_all [jrd]
+
+theorem rdv_def {β : Type} (name : String) (v : Vec β) (k : Int) :
+    rdv name v k = if 0 ≤ k ∧ k < v.len then Except.ok (v.get k.toNat) else Except.error (.ub ("oob " ++ name)) := rfl
+
+
 /-! checked double operations over ℝ, both sides in the same `if` form -/
 theorem jdiv_real (a b : ℝ) : jdiv a b = if b = 0 then Except.error (.nf "div0") else Except.ok (a / b) := by
   unfold jdiv; simp only [deq_real]; norm_num
@@ -94,6 +106,23 @@ theorem JPos.error {e : JStop} : JPos (Except.error e) := fun _ h => by cases h
 theorem JPos.exp {y : ℝ} : JPos (Except.ok (XNum.exp y)) := fun _ h => by cases h; exact Real.exp_pos y
 theorem JPos.of_pos {y : ℝ} (h : 0 < y) : JPos (Except.ok y) := fun _ h' => by cases h'; exact h
 theorem JPos.ne {j : JM ℝ} {v : ℝ} (h : JPos j) (hv : j = Except.ok v) : v ≠ 0 := (h v hv).ne'
+
+theorem JPos.bind {β : Type} {m : JM β} {f : β → JM ℝ} (h : ∀ a, JPos (f a)) : JPos (m >>= f) := by
+  cases m with
+  | error e => exact JPos.error
+  | ok a => exact h a
+theorem JPos.ite {c : Prop} [Decidable c] {a b : JM ℝ} (ha : JPos a) (hb : JPos b) : JPos (if c then a else b) := by
+  split_ifs <;> assumption
+
+theorem JPos.throw {e : JStop} : JPos (throw e : JM ℝ) := JPos.error
+theorem JPos.pure_exp {y : ℝ} : JPos (pure (XNum.exp y) : JM ℝ) := JPos.exp
+
+/-- positivity by the shape of the Java definition alone: whatever the reads and calls return, a value is `exp` of something -/
+macro "jpos_struct" : tactic =>
+  `(tactic| repeat' (first
+      | with_reducible exact JPos.error | with_reducible exact JPos.exp | with_reducible exact JPos.throw | with_reducible exact JPos.pure_exp
+      | (with_reducible apply JPos.bind; intro _)
+      | with_reducible apply JPos.ite))
 
 /-- the simp set that evaluates both generated definitions one step; side conditions go to `omega` -/
 macro "jeq_simp" : tactic =>
